@@ -2898,6 +2898,59 @@ fn c14_hammer(seed: u64, round: usize, out: &mut String, st: &mut Stats) -> bool
         }
         st.count("simultaneous_first_builds_through_add_patterns", reps * 6);
     }
+    // --- simultaneous FIRST builds of one FAILING configuration (the failure is detected late: an
+    // unknown Unicode class behind a dozen ordinary patterns): every call must return an error
+    {
+        let reps = 40usize;
+        let mut bad: Option<String> = None;
+        for rep in 0..reps {
+            let mut pats: Vec<scnr::Pattern> = (0..12).map(|k| scnr::Pattern::new(format!("f{}_{}_{}_{}[a-z]+", seed % 1000, round, rep, k), k)).collect();
+            pats.push(scnr::Pattern::new("\\p{Greek}+".to_string(), 99));
+            let modes = vec![scnr::ScannerMode::new("F", pats, Vec::<(usize, usize)>::new())];
+            let barrier = Arc::new(std::sync::Barrier::new(6));
+            let (tx, rx) = std::sync::mpsc::channel::<Result<bool, ()>>();
+            for _ in 0..6 {
+                let (modes, barrier, tx) = (modes.clone(), barrier.clone(), tx.clone());
+                std::thread::spawn(move || {
+                    barrier.wait();
+                    let r = catch_unwind(AssertUnwindSafe(|| ScannerBuilder::new().add_scanner_modes(&modes).build().is_err()));
+                    let _ = tx.send(r.map_err(|_| ()));
+                });
+            }
+            drop(tx);
+            for _ in 0..6 {
+                match rx.recv_timeout(std::time::Duration::from_secs(20)) {
+                    Ok(Ok(true)) => {}
+                    Ok(Ok(false)) => {
+                        if bad.is_none() {
+                            bad = Some(format!("a configuration with an unknown Unicode class built without error (simultaneous builds, repetition {})", rep));
+                        }
+                    }
+                    Ok(Err(())) => {
+                        if bad.is_none() {
+                            bad = Some(format!("a simultaneous failing build panicked instead of returning an error (repetition {})", rep));
+                        }
+                    }
+                    Err(_) => {
+                        if bad.is_none() {
+                            bad = Some(format!("a simultaneous failing build did not return within 20 s (repetition {})", rep));
+                        }
+                    }
+                }
+            }
+            if bad.is_some() {
+                break;
+            }
+        }
+        match bad {
+            None => out.push_str("oracle ok\nexpect oracle\n"),
+            Some(b) => {
+                let _ = writeln!(out, "oracle FAIL {}\nexpect oracle", b);
+                return true;
+            }
+        }
+        st.count("simultaneous_failing_builds", reps * 6);
+    }
     // --- builds: cache hits through add_patterns, misses, failing builds, and (one thread) cached
     // builds of a configuration read through serde with an unsorted transition table
     let unsorted_cfg: Option<(Vec<scnr::ScannerMode>, String, String)> = {
